@@ -1,6 +1,6 @@
 (* C17 property theorems ONLY (each closed by an already proved lemma) + assumptions. *)
 From Coq Require Import NArith List String Bool.
-From RV Require Import C05.Types C05.Model C05.Table C05.Roundtrip C17.Model C17.Proofs Gen.Descriptors.
+From RV Require Import C05.Types C05.Model C05.Table C05.Roundtrip C05.Whole C05.Run C05.WholeGen C17.Model C17.Proofs C17.Complete Gen.Descriptors.
 Import ListNotations.
 Open Scope N_scope.
 
@@ -69,6 +69,34 @@ Print Assumptions C17_records_reported_iff_member_bytes_differ.
 Theorem C17_all_compared_doubles_bitwise : all_bitwise pms_gen && all_bitwise vms_gen = true.
 Proof. exact gen_all_bitwise. Qed.
 Print Assumptions C17_all_compared_doubles_bitwise.
+
+(* 6. copy_equal_view: copy s = reader (writer s) (reb_simulation_copy_with_messages) has the same persisted view as s
+   and compares equal to it, for every well-formed memory of the regenerated table (C05's whole-table theorem). *)
+Theorem C17_copy_equal_view : forall m m0 fp hdrpl,
+  mem_wf particle_size table m -> init_ok table m0 ->
+  let copy := rfields legacy_maxrad_id table m0 (mkfield hdr_id hdrpl :: gen_view m fp) in
+  gen_view copy fp = gen_view m fp /\ are_different_gen (gen_view m fp) (gen_view copy fp) = false.
+Proof. exact gen_copy_equal_view. Qed.
+Print Assumptions C17_copy_equal_view.
+
+(* 7. diff_complete_per_field: for EVERY row of the regenerated table whose name does not start with "walltime",
+   a difference in that field alone (any byte for ordinary fields; the bytes of a value member of some record, or
+   the record count, for particles / var_config) makes reb_binary_diff return 1 ... *)
+Theorem C17_diff_complete_per_field : forall d, In d (live table) -> String.prefix walltime_prefix (d_name d) = false ->
+  forall fs1 fs2 f1 f2, NoDup (map f_type fs2) ->
+  In f1 fs1 -> f_type f1 = d_id d -> lookup fs2 (d_id d) = Some f2 ->
+  persisted_difference f1 f2 -> are_different_gen fs1 fs2 = true.
+Proof. exact gen_diff_complete_per_field. Qed.
+Print Assumptions C17_diff_complete_per_field.
+
+(* ... and conversely a reported difference is a missing field or a persisted_difference of a non-walltime field. *)
+Theorem C17_diff_sound_per_field : forall fs1 fs2, NoDup (map f_type fs2) -> are_different_gen fs1 fs2 = true ->
+  (exists f1, In f1 fs1 /\ lookup fs2 (f_type f1) = None) \/
+  (exists f2, In f2 fs2 /\ lookup fs1 (f_type f2) = None) \/
+  (exists f1 f2, In f1 fs1 /\ lookup fs2 (f_type f1) = Some f2 /\ persisted_difference f1 f2 /\
+                 is_wall table walltime_prefix (f_type f1) = false).
+Proof. exact gen_diff_sound_per_field. Qed.
+Print Assumptions C17_diff_sound_per_field.
 
 (* Non-vacuity of the hypotheses of 1, 2, 4: two one-particle streams differing in x. *)
 Example C17_hypotheses_inhabited :
